@@ -14,6 +14,8 @@ Parsers (oj.Parser, gen.Parser, oj.Tokenizer, oj.Validator — the strict-JSON m
   `parseBuffer`/`tokenizeBuffer`/`validateBuffer` in every entry point, all Go fields that hold a
   live model field, and all fields that carry an argument of the call, have been assigned. Deleting
   a reset line from the Go source shrinks the generated list and breaks this proof.
+* `entries_values`: and what they are assigned is what `entryReset` assumes (`mode = valueMap`,
+  `line = 1`, `noff = -1`, zero-length reslices, `result = nil`), read from the right-hand sides.
 * `C07_parsers`: the two together, per generated entry point and call site.
 * `reset_needed_*`: none of the six live fields can be dropped from the list (witness each).
 
@@ -143,6 +145,31 @@ theorem fields_classified :
     (structFields.all fun p => p.2.all (knownFields p.1).contains) &&
     (parserEntries.all fun e => (readBeforeWrite e.recv).all fun f => !(configFields e.recv).contains f) = true := by
   decide
+
+/-- the values assigned to Go field `g` before this site -/
+def valuesOf (st : Gen.ReuseFacts.Site) (g : String) : List String :=
+  (st.values.filter fun p => p.1 == g).map (·.2)
+
+/-- the values agree with `entryReset`: a field that only the reset assigns (`mode line noff stack
+starts tmp result`) is assigned nothing but the value `entryReset` gives it; a field that the
+arguments of the call may overwrite (`cb resultChan`) is first set to that value; the token
+handler is the call's argument itself -/
+def valuesOK (recv : String) (st : Gen.ReuseFacts.Site) : Bool :=
+  liveAtEntry.all fun f =>
+    match resetToken f with
+    | none => true
+    | some tok =>
+      (implementedBy recv f).all fun g =>
+        if g = "handler" then valuesOf st g == ["ident:handler"]
+        else if (argFields recv).contains g then (valuesOf st g).contains tok
+        else valuesOf st g == [tok]
+
+open OjgVerif.Gen.ReuseFacts in
+/-- **the resets assign what `entryReset` assumes** (kernel-evaluated over the regenerated right-hand
+sides): `p.line = 0` instead of `1`, `p.mode = afterMap`, `p.noff = 0`, a reslice that is not
+`[:0]` … break this proof, not only the run -/
+theorem entries_values :
+    parserEntries.all (fun e => e.sites.all fun st => valuesOK e.recv st) = true := by decide
 
 def tablesOf (recv : String) : Tables := if recv = "gen.Parser" then genTables else ojTables
 
